@@ -250,9 +250,14 @@ fn strip_ansi(s: &str) -> String {
 }
 
 fn fmt_byte(v: u8, radix: u8) -> String {
-    match radix % 3 {
+    match radix % 7 {
         1 => format!("0x{:X}", v),
         2 => format!("0b{:b}", v),
+        // the value counts, not the spelling: zero padding, lower-case hex digits
+        3 => format!("{:04}", v),
+        4 => format!("0x{:x}", v),
+        5 => format!("0x{:04X}", v),
+        6 => format!("0b{:010b}", v),
         _ => format!("{}", v),
     }
 }
@@ -345,10 +350,16 @@ fn process(scn: &Scn, radix: &[u8], fault: &Option<FileFault>, bad: &Option<(Str
     }
     // flags before or after the positionals
     let flags_first = r(7) % 2 == 0;
+    // `--flag value` or `--flag=value`
+    let eq_form = (r(7) / 2) % 2 == 1;
     let push_flags = |args: &mut Vec<String>| {
         for (k, val) in &flags {
-            args.push(k.clone());
-            args.push(val.clone());
+            if eq_form {
+                args.push(format!("{}={}", k, val));
+            } else {
+                args.push(k.clone());
+                args.push(val.clone());
+            }
         }
         for (k, on) in [("--j1", c.j1), ("--j2", c.j2), ("--uio1", c.uio[0]), ("--uio2", c.uio[1]), ("--uio3", c.uio[2])] {
             if on {
@@ -582,7 +593,7 @@ impl Check for C12 {
                 None
             };
             let file_fault = if bad_arg.is_none() && rng.chance(1, 10) { Some(rng.pick(&[FileFault::Missing, FileFault::Directory, FileFault::NonUtf8]).clone()) } else { None };
-            scn.layer = Layer::Process { radix: (0..8).map(|_| rng.below(3) as u8).collect(), file_fault, bad_arg };
+            scn.layer = Layer::Process { radix: (0..8).map(|_| rng.below(7) as u8).collect(), file_fault, bad_arg };
             // the CLI takes voltages as decimal text: keep them exactly representable in that round trip
             scn.cfg.temp = (scn.cfg.temp * 100.0).round() / 100.0;
             scn.cfg.ai1 = (scn.cfg.ai1 * 100.0).round() / 100.0;
@@ -652,7 +663,7 @@ impl Check for C12 {
         out
     }
     fn rule(&self) -> String {
-        "Generated mrasm source programs (addition, board/input mirror, counters, key-interrupt programs, error halts, random straight-line code, broken sources) x machine configurations x cycle budgets {0, 1, small, halt time +-2, large} x interrupt / reset schedules with duplicates, cycle 0, entries at and beyond the end, both kinds at the same cycle. In-process: RunnerConfig::run vs the stated loop (full Machine equality, cycle count) and verify() for all 8 expectation subsets x matching / one mismatching value. Process: the real binary with every byte flag in decimal/0x/0b, flags before or after the positionals, repeated --interrupt/--reset, verify sub-command, malformed values, and file faults (missing, directory, non-UTF-8, syntax error, undefined label); stdout fields and exit status compared. distinct = distinct (budget class, #interrupts, #resets, collision?, final state, layer, expectation outcome) tuples.".into()
+        "Generated mrasm source programs (addition, board/input mirror, interrupt/board status mirror (0xF9, 0xF3), counters, key-interrupt programs, error halts, random straight-line code, broken sources) x machine configurations x cycle budgets {0, 1, small, halt time +-2, large} x interrupt / reset schedules with duplicates, cycle 0, entries at and beyond the end, both kinds at the same cycle. In-process: RunnerConfig::run vs the stated loop (full Machine equality, cycle count) and verify() for all 8 expectation subsets x matching / one mismatching value. Process: the real binary with every byte flag in decimal/0x/0b (also zero-padded and lower-case hex spellings), `--flag value` or `--flag=value`, flags before or after the positionals, repeated --interrupt/--reset, verify sub-command, malformed values, and file faults (missing, directory, non-UTF-8, syntax error, undefined label); stdout fields and exit status compared. distinct = distinct (budget class, #interrupts, #resets, collision?, final state, layer, expectation outcome) tuples.".into()
     }
     fn assumptions(&self) -> Vec<String> {
         vec![
